@@ -148,3 +148,40 @@ Theorem C14_reject_not_orthonormal : forall tv tr lab, fp_control true tv tr lab
 Proof. exact fp_control_reject_orth. Qed.
 Theorem C14_reject_not_traceless : forall lab, fp_control false true (Some true) lab = FpNotTraceless.
 Proof. exact fp_control_reject_traceless. Qed.
+
+(* ---------------- instances for the other properties (Proofs/BasisInstances.v, BasisInstancesSuperop.v) ----------------
+   The shipped bases satisfy the hypothesis shapes of Base/FMat.v (C08/C09/C12), Proofs/Superop.v (C15) and
+   Proofs/AtomicAlg.v (C03) for every n / every d.                                                          *)
+From FF Require Base.FMat Proofs.SuperopAlg Proofs.Superop Proofs.AtomicAlg Model.Superop.
+From FF Require Import Proofs.BasisInstances Proofs.BasisInstancesSuperop.
+Theorem C14_fmat_complete_pauli : forall n, FMat.basis_complete (2 ^ n) (4 ^ n) (pauli_C n).
+Proof. exact fmat_complete_pauli. Qed.
+Theorem C14_fmat_complete_ggm : forall d, (0 < d)%nat -> FMat.basis_complete d (d * d) (ggm_C d).
+Proof. exact fmat_complete_ggm. Qed.
+Print Assumptions C14_fmat_complete_ggm.
+Theorem C14_fmat_orthonormal_pauli : forall n, FMat.basis_orthonormal (2 ^ n) (4 ^ n) (pauli_C n).
+Proof. exact fmat_orthonormal_pauli. Qed.
+Theorem C14_fmat_orthonormal_ggm : forall d, (0 < d)%nat -> FMat.basis_orthonormal d (d * d) (ggm_C d).
+Proof. exact fmat_orthonormal_ggm. Qed.
+Theorem C14_superop_complete_pauli : forall n, Superop.basis_complete (2 ^ n) (pauli_basis RO n).
+Proof. exact superop_basis_complete_pauli. Qed.
+Theorem C14_superop_complete_ggm : forall d, (0 < d)%nat -> Superop.basis_complete d (ggm_basis RO d).
+Proof. exact superop_basis_complete_ggm. Qed.
+Theorem C14_atomic_complete_pauli : forall n (X : fmat),
+  feq (2 ^ n) X (AtomicAlg.flin (length (pauli_basis RO n)) (fun l => ftr (2 ^ n) (fmul (2 ^ n) (AtomicAlg.Cf (pauli_basis RO n) l) X))
+                                (AtomicAlg.Cf (pauli_basis RO n))).
+Proof. exact atomic_Hcomplete_pauli. Qed.
+Theorem C14_atomic_complete_ggm : forall d, (0 < d)%nat -> forall X : fmat,
+  feq d X (AtomicAlg.flin (length (ggm_basis RO d)) (fun l => ftr d (fmul d (AtomicAlg.Cf (ggm_basis RO d) l) X))
+                          (AtomicAlg.Cf (ggm_basis RO d))).
+Proof. exact atomic_Hcomplete_ggm. Qed.
+(* the Gell-Mann list of the C15 model (Model/Superop.v) is elementwise the one of Model/BasisModel.v *)
+Theorem C14_c15_ggm_elem : forall d, (0 < d)%nat -> forall k, (k < d * d)%nat ->
+  feq d (toF (Numeric.nthm (Superop.ggm_basis RO d) k)) (ggm_C d k).
+Proof. exact c15_ggm_elem. Qed.
+Theorem C14_c15_basis_complete : forall d, (0 < d)%nat -> Superop.basis_complete d (Superop.ggm_basis RO d).
+Proof. exact c15_basis_complete. Qed.
+Theorem C14_c15_basis_orth : forall d, (0 < d)%nat -> Superop.basis_orth d (Superop.ggm_basis RO d).
+Proof. exact c15_basis_orth. Qed.
+Theorem C14_c15_basis_herm : forall d, (0 < d)%nat -> Superop.basis_herm d (Superop.ggm_basis RO d).
+Proof. exact c15_basis_herm. Qed.
